@@ -83,3 +83,10 @@ func absDiff(a, b uint8) int {
 	}
 	return int(b - a)
 }
+
+func minInt(a, b int) int {
+	if a < b {
+		return a
+	}
+	return b
+}
